@@ -619,8 +619,18 @@ CliDiffClause(ev) ==
       p1 == ShiftAll(m, CliInput(m, ev, ev.g), ev.offs, 1)
       p2 == ShiftAll(m, CliInput(m, ev, ev.g2), ev.offs2, 1)
       dist == Minus3(Inst(m, p2), Inst(m, p1))
+      \* with a print format for the difference: sign, then each letter y m d h M s replaced by that component of |d|
+      \* (days and the time of day; a difference of two points has no years or months), other characters literal
+      ad == IF Lt3(dist, Zero3) THEN Neg3(dist) ELSE dist
+      RECURSIVE Fmt(_)
+      Fmt(k) == IF k > Len(ev.dpf) THEN <<>>
+                ELSE (LET t == ev.dpf[k].d IN
+                      CASE t = "lit" -> <<ev.dpf[k].c>> [] t = "d" -> Dec(ad[1]) [] t = "h" -> Dec(ad[2] \div 3600)
+                        [] t = "M" -> Dec((ad[2] % 3600) \div 60) [] t = "s" -> Dec(ad[2] % 60) [] OTHER -> Dec(0)) \o Fmt(k + 1)
   IN IF ev.traceback THEN "traceback-" \o ev.cls
      ELSE IF ev.code # 0 THEN "exit-status-" \o ToString(ev.code)
+     ELSE IF Len(ev.dpf) > 0 THEN
+          (IF ev.out = (IF Lt3(dist, Zero3) THEN <<CHMinus>> ELSE <<>>) \o Fmt(1) \o <<10>> THEN "ok" ELSE "formatted-difference-is-not-the-signed-duration")
      \* the total is printed as a float in the requested unit: ~1e-9 h at 10^7 h is a few microseconds
      ELSE IF ev.total THEN (IF ev.parsed /\ Near3(ev.tlen, dist, 50) THEN "ok" ELSE "--as-total-differs-from-the-distance")
      ELSE IF ~ev.parsed THEN "printed-duration-unreadable"
